@@ -148,8 +148,10 @@ def make_index(kind, name="self.index"):
         return None
     if kind == "index":
         return SO.make_component(Index, name, "i", "index")
+    if kind == "index_named_like_a_column":
+        return SO.make_component(Index, name, LABELS[0], "index")
     n = int(kind[-1]) if kind[-1].isdigit() else 2
-    mi = SO.make_multiindex(MultiIndex, Index, Column, name, ["i", "j", "k"][:n])
+    mi = SO.make_multiindex(MultiIndex, Index, Column, name, ["i", LABELS[0]] if kind == "multi_with_a_level_named_like_a_column" else ["i", "j", "k"][:n])
     # MultiIndex(unique=...) (joint uniqueness over levels): unset here - a MultiIndex is transformed with the DataFrameSchema methods,
     # whose handling of the constraint is stated for the container (unique_spec)
     if "_unique" in mi.attrs or "_unique" in getattr(mi, "field_types", {}):
@@ -644,7 +646,10 @@ class SetIndex(SchemaOp):
 
 
 RESET_REQUESTS = [("none", None, False), ("index", None, False), ("index", None, True), ("index", ["i"], False), ("index", ["zz"], False), ("index", [], False),
-                  ("multi2", None, False), ("multi2", ["i"], False), ("multi2", ["j"], True), ("multi2", ["zz"], False), ("multi3", ["i"], False), ("multi3", ["k"], True)]
+                  ("multi2", None, False), ("multi2", ["i"], False), ("multi2", ["j"], True), ("multi2", ["zz"], False), ("multi3", ["i"], False), ("multi3", ["k"], True),
+                  # a level named like an existing column: DataFrame.reset_index refuses ("cannot insert a, already exists") unless drop=True
+                  ("index_named_like_a_column", None, False), ("index_named_like_a_column", None, True),
+                  ("multi_with_a_level_named_like_a_column", None, False), ("multi_with_a_level_named_like_a_column", ["i"], False)]
 
 
 class ResetIndex(SchemaOp):
@@ -682,14 +687,18 @@ class ResetIndex(SchemaOp):
             return None
         return [attr0(lv, "name") for lv in attr0(idx, "indexes")] if idx.cls is MultiIndex else [attr0(idx, "name")]
 
-    def valid(self, self_, level):
+    def valid(self, self_, level, drop=True):
         names = self.names(self_)
-        return names is not None and (level is None or all(x in names for x in level))
+        if names is None or not (level is None or all(x in names for x in level)):
+            return False
+        # a level that would become a column named like an existing column: the frame operation is refused ("cannot insert a, already
+        # exists"), and a schema that silently REPLACED the column would describe no frame reset_index can produce
+        return drop or not any(n in self.labels for n in names if level is None or n in level)
 
     def ensures(self, result, old, self_, level, drop):
         from pandera.api.pandas.components import Column, Index, MultiIndex
 
-        out = {"request_was_valid": self.valid(self_, level)}
+        out = {"request_was_valid": self.valid(self_, level, drop)}
         if level is not None and len(level) == 0:
             # "explicit check for an empty list": nothing to reset - the schema itself is an acceptable answer
             out["empty_level_list_changes_nothing"] = result is self_ or value_equal(result, self_, at_entry=True)
@@ -751,7 +760,7 @@ class ResetIndex(SchemaOp):
 
     def on_raise(self, exc, old, self_, level, drop):
         idx = attr0(self_, "index")
-        return {"only_for_an_invalid_request": not self.valid(self_, level), "is_schema_init_error": exc.cls is SchemaInitError}
+        return {"only_for_an_invalid_request": not self.valid(self_, level, drop), "is_schema_init_error": exc.cls is SchemaInitError}
 
 
 def _may_raise_for_index(col):
